@@ -116,6 +116,8 @@ theorem fcgiAfterBegin_safe (fuel reqId : Nat) (keep : Bool) (s : Bytes × Bool)
         | error o => exact ⟨allSafe_append ho (allSafe_single (p2 o rfl)), by dsimp only; omega⟩
         | ok pbody =>
           dsimp only
+          unfold fcgiAfterParams
+          dsimp only
           split
           · have key : ∀ r, HSafe t (fcgiStdinEof flatReader r t out) := fun r => fcgiStdinEof_safe r t out ho
             refine ⟨(key _).safe, Nat.le_trans (key _).len ?_⟩
